@@ -15,7 +15,7 @@ const MAGIC: u64 = 0xC0DE_0000_0000_0000;
 
 pub fn payload_of(cfg: &Cfg, seq: Seq, pub_inst: u32) -> (Vec<u64>, u64) {
     let len = match cfg.payload {
-        Payload::U64 => 1,
+        Payload::U64 | Payload::Wide => 1,
         Payload::Slice => 1 + (seq as usize % crate::real::MAX_SLICE_LEN),
     };
     let w: Vec<u64> = (0..len as u64).map(|e| MAGIC | ((seq as u64) << 16) | ((pub_inst as u64 & 0xff) << 8) | e).collect();
